@@ -40,5 +40,13 @@ for rel, unit in sorted(repo.units.items()):
                             walk(h.body, prefix)
     walk(ast.parse(unit.source).body, '')
     out[rel] = {'functions': sorted(set(funcs)), 'constants': sorted(set(consts))}
+# how each record type (class) is constructed in the reference tree: positionally or by keywords (N31 keeps that style)
+styles = {}
+for rel, unit in sorted(repo.units.items()):
+    for c in ast.walk(ast.parse(unit.source)):
+        if isinstance(c, ast.Call) and isinstance(c.func, ast.Name) and c.func.id[:1].isupper() and (c.args or c.keywords):
+            st = 'keywords' if c.keywords and not c.args else 'positional' if c.args and not c.keywords else 'mixed'
+            styles.setdefault(c.func.id, set()).add(st)
+out['__record_styles__'] = {'functions': [], 'constants': [], 'styles': {k: sorted(v)[0] for k, v in styles.items() if len(v) == 1}}
 json.dump(out, open(f'{VERIF}/sa/reference_names.json', 'w'), indent=1, sort_keys=True)
-print(sum(len(v['functions']) for v in out.values()), 'functions,', sum(len(v['constants']) for v in out.values()), 'constants in', len(out), 'units')
+print(sum(len(v['functions']) for v in out.values()), 'functions,', sum(len(v['constants']) for v in out.values()), 'constants in', len(out) - 1, 'units')
